@@ -303,7 +303,7 @@ impl Property for C13 {
         "C13"
     }
     fn rule(&self) -> String {
-        "Generated: ontologies (built with defaults through own v1/v2/v3 bytes, as_bytes round trip, JAX files or the Builder, so categories and modifier roots are defined) with obsolete terms, replacements pointing to existing terms (members, non-members, the term itself) and to ids that are not terms (then only len / contains are observed), modifier branches and records of all kinds; in one case of five each the modifier roots / the categories are replaced through modifier_mut() / categories_mut() by arbitrary terms, after the set was questioned once under the groups the ontology was built with; member sets of 0-12 terms drawn with repetition (empty sets, ancestors together with descendants), one case in 13 with 44-72 terms and 30-90 picks (more than the 30 members an id group stores inline). Oracle on the reference model: child_nodes = members without a member among their descendants; without_modifier/remove_modifier drop exactly members that are or descend from a modifier root; without_obsolete/remove_obsolete drop exactly flagged members; with_replaced_obsolete/replace_obsolete map exactly the members naming a replacement (collisions shrink the set); gene/omim/orpha id sets = unions over members; categories() = per-category member counts; information_content gene/omim = -ln(|union|/N) (0 rule; 1e-5); each in-place method equals its copying twin; len/is_empty/contains/get/iter/Extend agree with the member set; copying methods leave the set untouched. Half of the cases additionally drive ONE set object through 1-8 operations (read aggregates / remove_modifier / remove_obsolete / replace_obsolete / extend / child_nodes / continue on a copy), comparing members and all aggregates with the model after every step (state kept inside the object between calls). Fixed cases in their own processes: sets of 130-300 (thorough 66 000) members on ontologies of 900-70 000 terms in two id scatterings, and sets of 2-5 members that lie up to 297 levels apart on a chain of 300 links. evaluations = set operations. Non-trivial = set contains an ancestor/descendant pair, an obsolete and a replaced member; distinct by hash of the case.".into()
+        "Generated: ontologies (built with defaults through own v1/v2/v3 bytes, as_bytes round trip, JAX files or the Builder, so categories and modifier roots are defined) with obsolete terms, replacements pointing to existing terms (members, non-members, the term itself) and to ids that are not terms (then only len / contains are observed), modifier branches and records of all kinds; in one case of five each the modifier roots / the categories are replaced through modifier_mut() / categories_mut() by arbitrary terms, after the set was questioned once under the groups the ontology was built with; member sets of 0-12 terms drawn with repetition (empty sets, ancestors together with descendants), one case in 13 with 44-72 terms and 30-90 picks (more than the 30 members an id group stores inline). Oracle on the reference model: child_nodes = members without a member among their descendants; without_modifier/remove_modifier drop exactly members that are or descend from a modifier root; without_obsolete/remove_obsolete drop exactly flagged members; with_replaced_obsolete/replace_obsolete map exactly the members naming a replacement (collisions shrink the set); gene/omim/orpha id sets = unions over members; categories() = per-category member counts; information_content gene/omim = -ln(|union|/N) (0 rule; 1e-5); each in-place method equals its copying twin; len/is_empty/contains/get/iter/Extend agree with the member set; copying methods leave the set untouched. Half of the cases additionally drive ONE set object through 1-8 operations (read aggregates / remove_modifier / remove_obsolete / replace_obsolete / extend / child_nodes / continue on a copy), comparing members and all aggregates with the model after every step (state kept inside the object between calls). Fixed cases in their own processes: sets of 130-300 (thorough 66 000) members on ontologies of 900-70 000 terms in two id scatterings, and sets of 2-5 members on a chain of 300 links that lie up to 297 levels apart or all deeper than 255 levels. evaluations = set operations. Non-trivial = set contains an ancestor/descendant pair, an obsolete and a replaced member; distinct by hash of the case.".into()
     }
     fn assumptions(&self) -> Vec<String> {
         vec!["replacements name existing terms (a set holding an id that is not a term is outside the documented domain of HpoSet)".into()]
@@ -361,6 +361,9 @@ impl Property for C13 {
             json!({"big": (900u32, 7919u32, 20u32, 130u32)}),
             json!({"deep": (300u32, 104_729u32, vec![2u32, 299])}),
             json!({"deep": (300u32, 7919u32, vec![3u32, 36, 70, 135, 300])}),
+            // both members have more ancestors than an 8-bit counter holds
+            json!({"deep": (300u32, 104_729u32, vec![258u32, 299])}),
+            json!({"deep": (300u32, 7919u32, vec![256u32, 257, 290])}),
         ];
         if tier == Tier::Thorough {
             out.push(json!({"big": (70_000u32, mult, 300u32, 66_000u32)}));
